@@ -43,6 +43,15 @@ pub fn wl_c13(seed: u64, tier: &str) -> Vec<Vec<Value>> {
                             "dst": bytes_to_j(&r.bytes(dl)), "len": len, "cls": format!("len{}", len)}));
             chunk(&mut sessions, &mut ops, 6);
         }
+        // requests far beyond 255 blocks must abort as well (XMD only: an XOF would try to allocate them)
+        if is_xmd {
+            for big in [u64::MAX, u64::MAX - 1, u64::MAX - (b as u64 - 2), u64::MAX - (b as u64 - 1), u64::MAX - b as u64,
+                        1u64 << 63, 1u64 << 32, (1u64 << 32) + 5, 65536, 1u64 << 16 | 3].iter() {
+                ops.push(json!({"op": "xmd", "x": x, "msg": bytes_to_j(&r.bytes(3)), "dst": bytes_to_j(&r.bytes(9)),
+                                "lenbig": nat(&vec![*big]), "cls": "huge-length"}));
+                chunk(&mut sessions, &mut ops, 6);
+            }
+        }
         // message and dst lengths across block boundaries
         for ml in msg_lens.iter() {
             for dl in dst_lens.iter() {
